@@ -136,6 +136,45 @@ func utf8Name(cn, org string) []byte {
 	return out
 }
 
+// mintLeaf makes a certificate for leafKey issued by a separate CA (issuer name
+// and subject name differ, as for every real-world signing certificate).
+func mintLeaf(leafKey *rsa.PrivateKey, caName, leafName pkix.Name, serial *big.Int) *x509.Certificate {
+	caKey := rsaKey(2048, 4)
+	ca := x509.Certificate{
+		SerialNumber: big.NewInt(1), Subject: caName,
+		NotBefore: time.Now().Add(-time.Hour), NotAfter: time.Now().Add(48 * time.Hour),
+		IsCA: true, BasicConstraintsValid: true, KeyUsage: x509.KeyUsageCertSign,
+	}
+	caDer, err := x509.CreateCertificate(rand.Reader, &ca, &ca, &caKey.PublicKey, caKey)
+	if err != nil {
+		panic(err)
+	}
+	caCert, err := x509.ParseCertificate(caDer)
+	if err != nil {
+		panic(err)
+	}
+	tmpl := x509.Certificate{
+		SerialNumber: serial, Subject: leafName,
+		NotBefore: time.Now().Add(-time.Hour), NotAfter: time.Now().Add(24 * time.Hour),
+		KeyUsage: x509.KeyUsageDigitalSignature, ExtKeyUsage: []x509.ExtKeyUsage{x509.ExtKeyUsageCodeSigning},
+	}
+	der, err := x509.CreateCertificate(rand.Reader, &tmpl, caCert, &leafKey.PublicKey, caKey)
+	if err != nil {
+		panic(err)
+	}
+	c, err := x509.ParseCertificate(der)
+	if err != nil {
+		panic(err)
+	}
+	return c
+}
+
+// leafCert: a CA-issued certificate with the usual names.
+func leafCert(key *rsa.PrivateKey, cn string, serial int64) *x509.Certificate {
+	return mintLeaf(key, pkix.Name{CommonName: "verif issuing CA", Organization: []string{"verif"}},
+		pkix.Name{CommonName: cn, Organization: []string{"verif"}}, big.NewInt(serial))
+}
+
 func simpleCert(key *rsa.PrivateKey, cn string, serial int64) *x509.Certificate {
 	return mintCert(key, pkix.Name{CommonName: cn, Organization: []string{"verif"}}, big.NewInt(serial))
 }
